@@ -6,7 +6,7 @@
 From stdpp Require Import gmap.
 From Coq Require Import ZArith List.
 From Measured Require Import Model.FMap Model.Units Model.Intern Model.Parse Model.ParseCheck
-  Proofs.UnitsFacts Proofs.InternFacts Proofs.ParseFacts.
+  Proofs.UnitsFacts Proofs.InternFacts Proofs.ParseFacts Model.LR Model.Lex Model.TextParse Proofs.TextParseFacts.
 Import ListNotations.
 Local Open Scope Z_scope.
 
@@ -50,3 +50,15 @@ Example C13_nonvacuous :
   print_ok (MkPrint [] [(1%positive, [109]); (2%positive, [115])] [(MkP 10 3, [107])])
            (ex_u, [(1%positive, 1); (2%positive, -2)], [107; 109; 8901; 115; 8315; 178]) = true.
 Proof. repeat split; vm_compute; reflexivity. Qed.
+
+(* ---- text level ----
+   unit_parse_text is Unit.parse in the model from the characters on: the scanner and LALR driver of Model/Lex.v on the
+   shipped parser's regenerated tables, the transformer of Model/TextParse.v, the evaluation of Model/Parse.v.  Whenever the
+   text the printer writes for a term list parses back to that term list -- evaluated in the kernel for every unit of
+   the run (Run_print.text_level_agrees) -- Unit.parse of that text is the term-level evaluation C13_parse_print is about. *)
+Theorem C13_text_roundtrip_is_term_roundtrip :
+  forall nm tab order ignore rules infos filtered terminals end_sym T l,
+  render_parses_back nm order ignore rules infos filtered terminals end_sym T l = true ->
+  unit_parse_text nm tab order ignore rules infos filtered terminals end_sym T (render l) = TUnit (eval_unit tab l None).
+Proof. exact text_roundtrip_is_term_roundtrip. Qed.
+Print Assumptions C13_text_roundtrip_is_term_roundtrip.
